@@ -113,8 +113,13 @@ def check(ctx, case, reqs, pend):
             if all(x.ndim == 1 for x in dense) and int(np.prod([s + 1 for s in shape])) <= 150:
                 dims2 = list(idxs)
                 dims2[a] = shifted
-                cnt, cm = A.call(ccube(dims2, interacting_shape=tuple(shape)), "count",
-                                 dict(case, weights=None), ("pair", 0))
+                try:
+                    cnt, cm = A.call(ccube(dims2, interacting_shape=tuple(shape)), "count",
+                                     dict(case, weights=None), ("pair", 0))
+                except Exception as e:
+                    ctx.oracle_fail("unweighted count after shift_common(%d) on dimension %d raised %s: %s" % (v, a, type(e).__name__, str(e)[:60]),
+                                    A.small_desc(case, {"dim": a, "v": v}), cls="C05-raises")
+                    continue
                 reqs.append({"op": "count", "dims": G.dims_to_model(dims2), "N": N, "shape": shape})
                 pend.append((A.small_desc(case, {"dim": a, "v": v}), [int(x) for x in cnt.reshape(-1).tolist()]))
 
